@@ -180,7 +180,9 @@ func c15Run(c *Ctx) {
 		// compatibility characters are not folded: only canonical composition applies
 		"m\u00b2", "\u099a\u09b2\u09ac\u09c7\u2026", "\u2122", "\u00bd kg", "\u00b5", "\u03bc", "\ufb01", "\u2460", "x\u00a0y", "\uff21", "\u2075", "\u3392",
 		// line breaks are characters too: print still adds exactly one newline of its own
-		"heading\n", "\n", "\n\n", "a\nb\n\n", "x\r\n", "\nlead", "mid\ndle", "total: 42\n"}
+		"heading\n", "\n", "\n\n", "a\nb\n\n", "x\r\n", "\nlead", "mid\ndle", "total: 42\n",
+		// comment markers inside a string are text
+		"http://example.com/a", "//", "src/*.bn or doc/*/x", "/* not a comment */", "a /* b", "*/ c", "1/2//3", "/*/"}
 	for _, s := range strs {
 		if strings.ContainsAny(s, "\"") {
 			continue
@@ -297,6 +299,15 @@ func c15Run(c *Ctx) {
 		lines := []string{Print(`"one"`), bad, Print(`"after"`), Print("[1, \"s\"]"), bad, Print("0.1 + 0.2"), `"echo";`}
 		if c.Mine() {
 			c15Judge(c, &Case{Gen: "repl-prints", Src: strings.Join(lines, "\n"), X: map[string]string{"final_newline": "1", "all_self": "1"}})
+		}
+		// piped sessions whose last line has no line terminator: that line is executed like any other
+		for _, last := range []string{Print("1 + 2"), Print(`"last"`), `"echo";`, Print("[1, \"s\"]"), bad} {
+			if c.Mine() {
+				c15Judge(c, &Case{Gen: "repl-prints", Src: strings.Join([]string{Print(`"one"`), bad, last}, "\n"), X: map[string]string{"final_newline": "0", "all_self": "1"}})
+			}
+			if c.Mine() {
+				c15Judge(c, &Case{Gen: "repl-prints", Src: last, X: map[string]string{"final_newline": "0", "all_self": "1"}})
+			}
 		}
 	}
 	// 5. random nested containers of random leaves
